@@ -113,7 +113,7 @@ def solve_case(s, cid, rail_rep=False, **kw):
     case = {"id": cid, "built": True, "st": project(s) if s is not None else EMPTY_ST, "args": args, "kw": {k: v for k, v in kw.items() if k not in ("tags",)}, "outcome": "ok", "exc": "", "msg": "",
             "table": {"cols": ["none"], "rows": [], "isnone": True},
             "rail": {"cols": ["none"], "rows": [], "isnone": True}, "hasrail": False, "railexc": "",
-            "has_design": False, "design": [], "haswant": False, "want": [],
+            "has_design": False, "design": [], "haswant": False, "want": [], "hasedit": False, "edit": {"op": "", "args": {}, "pre": EMPTY_ST},
             "has_slice": False, "slice_of": {"cols": ["none"], "rows": [], "isnone": True}}
     if s is None:
         return case
